@@ -18,6 +18,12 @@ from dataclasses import dataclass, field
 from typing import Any, Dict, List, Optional
 
 ROOT = os.path.dirname(os.path.dirname(os.path.abspath(__file__)))
+# Development aid (never used by the registered commands): analyse another checkout instead of /repo and keep
+# its evidence/replays apart, so seeded changes can be tried in scratch worktrees in parallel.
+ALT_REPO = os.environ.get("VERIF_REPO")
+OUT = os.environ.get("VERIF_OUT_DIR") or ROOT
+if ALT_REPO:
+    sys.path.insert(0, ALT_REPO)
 PY = os.path.join(ROOT, ".venv", "bin", "python")
 WORK = os.path.join(ROOT, ".work")
 KNOWN = os.path.join(ROOT, "known_findings.json")
@@ -53,7 +59,7 @@ def default_obligations(module_name: str, tier: str) -> List[Ob]:
 
 def _env():
     e = dict(os.environ)
-    e["PYTHONPATH"] = ROOT
+    e["PYTHONPATH"] = (ALT_REPO + os.pathsep if ALT_REPO else "") + ROOT
     e["PYTHONDONTWRITEBYTECODE"] = "1"
     e["PYTHONHASHSEED"] = "0"
     e.setdefault("HIPPOLYZER_VERIF", "1")
@@ -164,7 +170,7 @@ def decide_crosshair(prop: str, ob: Ob, known: List[dict], replay_counter: List[
             res["detail"] = f"refuted without a captured counterexample: {msg}"
             return res
         replay_counter[0] += 1
-        path = os.path.join(ROOT, "replays", f"{prop}-{ob.name}-{replay_counter[0]}.json")
+        path = os.path.join(OUT, "replays", f"{prop}-{ob.name}-{replay_counter[0]}.json")
         rec = {"property": prop, "kind": "crosshair", "module": ob.module, "func": ob.func, "kwargs": cex,
                "extra_pre": list(extra_pre), "crosshair_message": msg.get("message", "")[:1000],
                "traceback": msg.get("traceback", "")[-1500:]}
@@ -221,7 +227,7 @@ def decide_call(prop: str, ob: Ob, known: List[dict], replay_counter: List[int])
         res["verdict"] = "known" if res["known_findings"] else "holds"
     elif st == "refuted":
         replay_counter[0] += 1
-        path = os.path.join(ROOT, "replays", f"{prop}-{ob.name}-{replay_counter[0]}.json")
+        path = os.path.join(OUT, "replays", f"{prop}-{ob.name}-{replay_counter[0]}.json")
         rec = {"property": prop, "kind": "call", "module": ob.module, "replay_func": r.get("replay_func", "replay"),
                "counterexample": r.get("counterexample"), "detail": r.get("detail", "")}
         rp = run_replay(rec, path)
@@ -256,8 +262,8 @@ def check_property(prop: str, tier: str, only: Optional[str], jobs: int):
     t0 = time.time()
     seed = int(os.environ.get("VERIF_SEED", "0") or 0)
     os.makedirs(WORK, exist_ok=True)
-    os.makedirs(os.path.join(ROOT, "replays"), exist_ok=True)
-    os.makedirs(os.path.join(ROOT, "evidence"), exist_ok=True)
+    os.makedirs(os.path.join(OUT, "replays"), exist_ok=True)
+    os.makedirs(os.path.join(OUT, "evidence"), exist_ok=True)
     modname = f"harness.{prop.lower()}"
     # obligations are listed in a subprocess-free way: importing the harness imports /repo afresh
     mod = importlib.import_module(modname)
@@ -268,9 +274,9 @@ def check_property(prop: str, tier: str, only: Optional[str], jobs: int):
     if only:
         obs = [o for o in obs if o.name in only.split(",")]
     known = load_known(prop)
-    for f in os.listdir(os.path.join(ROOT, "replays")):
+    for f in os.listdir(os.path.join(OUT, "replays")):
         if f.startswith(prop + "-"):
-            os.remove(os.path.join(ROOT, "replays", f))
+            os.remove(os.path.join(OUT, "replays", f))
     counter = [0]
     results = {}
     twins = {}
@@ -392,7 +398,7 @@ def write_evidence(prop, tier, seed, mod, obs, results, wall, n_viol):
         "assumptions": meta.get("assumptions", []),
         "wall_s": round(wall, 2), "violations": n_viol,
     }
-    with open(os.path.join(ROOT, "evidence", f"{prop}.json"), "w") as f:
+    with open(os.path.join(OUT, "evidence", f"{prop}.json"), "w") as f:
         json.dump(ev, f, indent=1, default=str)
 
 
